@@ -13,6 +13,12 @@ def make_frame_sim(spec):
     from EasyFEA import Mesher, Models, Simulations, ElemType
     from EasyFEA.Geoms import Domain, Point, Line
 
+    # beams are named from a process-global counter and the mesh tags carry those names: start every frame at
+    # "beam0" so that a run does not depend on how many frames the process built before (replay determinism)
+    from EasyFEA.Models.Beam._beam import _Beam
+
+    if hasattr(_Beam, "_Beam__nBeam"):
+        _Beam._Beam__nBeam = -1
     p = spec["params"]
     dim = spec["dim"]
     mesher = Mesher()
